@@ -300,6 +300,8 @@ class Generator:
             return self.py_property_op(path, m, a, d)
         if k in ('raw_list', 'raw_list_comments'):
             return self.raw_list_op(path, m, a, k)
+        if k == 'raw_meta' and self.r.random() < 0.3:
+            return self.meta_op(path, m, a)            # the mapping side of raw_meta
         if k in ('filtered', 'raw_meta'):
             return self.filtered_op(path, m, a, k)
         if k in ('string_view', 'custom_view'):
@@ -496,7 +498,7 @@ class Generator:
         ops = ['append', 'insert', 'insert', 'pop', 'delint', 'setint', 'setslice', 'delslice', 'extend', 'clear', 'setext', 'delext',
                'move', 'copyinsert', 'iadd', 'remove']
         op = r.choice(ops)
-        if r.random() < 0.04 and not self.syntax_only:
+        if r.random() < 0.04 and (not self.syntax_only or k == 'raw_list'):
             # assign the whole list: a deep copy of the same list of another model of this class
             pool = [x for x in self.corpus.by_class.get(type(m), []) if len(getattr(x, a))]
             if pool:
@@ -830,65 +832,133 @@ class Generator:
 
     # --- meta mapping -----------------------------------------------------------------------------------------
     def meta_op(self, path, m, a):
+        """Mapping-side calls on `meta` (values) and `raw_meta` (MetaItem nodes). Every op carries a reference check: the keys
+        after the call, the value now stored under the key and the call's result are those of an ordered dict with first-match
+        lookup (duplicates keep their place) given the same call."""
         r = self.r
         w = getattr(m, a)
-        keys = list(w.keys())
+        raw = a == 'raw_meta'
+        items_before = list(w)
+        keys = [it.key for it in items_before]
         raw_attr = 'raw_meta_with_comments'
-        op = r.choice(['setnew', 'setnew', 'setexisting', 'del', 'pop', 'popdefault', 'delmissing', 'setdefault', 'update'])
+        op = r.choice(['setnew', 'setnew', 'setexisting', 'del', 'pop', 'popdefault', 'delmissing', 'setdefault', 'update', 'popitem'])
         desc = f'{path}.{a}.{op}'
         expect = None
         inplace = set()
+        indent = items_before[0].indent if items_before else ('        ' if isinstance(m, models.Posting) else '    ')
+        if raw and self.syntax_only and not items_before:
+            return None
 
-        def mv():
+        def plain():
             return r.choice(['text ' + self.fresh_name(), datetime.date(2002, 3, r.randint(1, 28)), D(r.randint(0, 999)), True, False, None,
                              models.Account.from_value('Assets:M'), models.Currency.from_value('CUR'), models.Tag.from_value('mt'),
                              models.Null.from_default(), models.Amount.from_value(D(r.randint(1, 9)), 'USD')])
-        refd = collections.OrderedDict()
-        for it in w:
-            refd.setdefault(it.key, it)
+
+        def mv(key):
+            return models.MetaItem.from_value(key, plain(), indent=indent) if raw else plain()
+
+        def first(key):
+            return next(i for i, k in enumerate(keys) if k == key)
+
+        def same_value(got, v):
+            if raw or isinstance(v, mbase.RawModel):
+                return got is v
+            return type(got) is type(v) and got == v
+
+        result = []
+        exp_keys = list(keys)
+        stored = []          # [(key, value that w[key] must now give)]
+        exp_result = result  # sentinel: no expectation
         if op == 'setnew':
             key = 'k' + self.fresh_name()
-            v = mv()
-            apply = lambda: w.__setitem__(key, v)
+            v = mv(key)
+            apply = lambda: result.append(w.__setitem__(key, v))
+            exp_keys = keys + [key]
+            stored = [(key, v)]
             desc += f'[{key!r}]={v!r:.40}'
         elif op == 'setexisting':
             if not keys:
                 return None
             key = r.choice(keys)
-            v = mv()
-            apply = lambda: w.__setitem__(key, v)
+            v = mv(key)
+            apply = lambda: result.append(w.__setitem__(key, v))
+            stored = [(key, v)]
             desc += f'[{key!r}]={v!r:.40}'
             inplace = {id(x) for x in getattr(m, raw_attr)}
-        elif op == 'del':
+        elif op in ('del', 'pop'):
             if not keys:
                 return None
             key = r.choice(keys)
-            apply = lambda: w.__delitem__(key)
-            desc += f'[{key!r}]'
-        elif op == 'pop':
-            if not keys:
-                return None
-            key = r.choice(keys)
-            apply = lambda: w.pop(key)
+            del exp_keys[first(key)]
+            if op == 'del':
+                apply = lambda: result.append(w.__delitem__(key))
+            else:
+                apply = lambda: result.append(w.pop(key))
+                old = items_before[first(key)]
+                exp_result = ('item', old) if raw else ('value-of', old, old.value)
             desc += f'({key!r})'
         elif op == 'popdefault':
-            apply = lambda: w.pop('zz-missing', None)
+            apply = lambda: result.append(w.pop('zz-missing', None))
+            exp_result = ('plain', None)
         elif op == 'delmissing':
             apply = lambda: w.__delitem__('zz-missing')
             expect = KeyError
         elif op == 'setdefault':
             key = r.choice(keys + ['k' + self.fresh_name()])
-            v = mv()
-            apply = lambda: w.setdefault(key, v)
+            v = mv(key)
+            apply = lambda: result.append(w.setdefault(key, v))
+            if key not in keys:
+                exp_keys = keys + [key]
+                stored = [(key, v)]
             desc += f'({key!r}, {v!r:.40})'
         elif op == 'update':
-            d = {'k' + self.fresh_name(): mv(), (r.choice(keys) if keys else 'k' + self.fresh_name()): mv()}
-            apply = lambda: w.update(d)
+            k1, k2 = 'k' + self.fresh_name(), (r.choice(keys) if keys else 'k' + self.fresh_name())
+            d = {k1: mv(k1), k2: mv(k2)}
+            apply = lambda: result.append(w.update(d))
+            exp_keys = keys + [k for k in d if k not in keys]
+            stored = list(d.items())
             desc += f'({list(d)!r})'
             inplace = {id(x) for x in getattr(m, raw_attr)}
+        elif op == 'popitem':
+            apply = lambda: result.append(w.popitem())
+            if not keys:
+                expect = KeyError
+            else:
+                exp_keys = keys[:-1]
+                old = items_before[-1]
+                exp_result = ('pair', old.key, old if raw else old.value, old)
         else:
             return None
-        o = Op(f'meta:{op}', desc, m, path, lambda: list(getattr(m, raw_attr)), apply, attr=a, expect=expect, inplace_ids=inplace)
+
+        def lc():
+            now = list(w.keys())
+            if now != exp_keys:
+                return f'dict semantics: keys are {now!r}, an ordered dict (first match, duplicates kept) given the same call has {exp_keys!r}'
+            for key, v in stored:
+                try:
+                    got = w[key]
+                except Exception as e:
+                    return f'dict semantics: reading [{key!r}] after the call raised {type(e).__name__}'
+                if not same_value(got, v):
+                    return f'dict semantics: [{key!r}] reads {got!r:.80} after {v!r:.80} was stored under it'
+            if exp_result is not result and result:
+                got = result[0]
+                if exp_result[0] == 'plain' and got is not exp_result[1]:
+                    return f'dict semantics: the call returned {got!r:.80}'
+                if exp_result[0] == 'item' and got is not exp_result[1]:
+                    return f'dict semantics: pop returned {got!r:.80}, not the first item with that key'
+                if exp_result[0] == 'value-of':
+                    v0 = exp_result[2]
+                    if not (got is v0 or (not isinstance(v0, mbase.RawModel) and type(got) is type(v0) and got == v0)):
+                        return f'dict semantics: pop returned {got!r:.80}, the first item with that key held {v0!r:.80}'
+                if exp_result[0] == 'pair':
+                    _, k0, v0, _item = exp_result
+                    if not (isinstance(got, tuple) and len(got) == 2 and got[0] == k0 and
+                            (got[1] is v0 or (not isinstance(v0, mbase.RawModel) and type(got[1]) is type(v0) and got[1] == v0))):
+                        return f'dict semantics: popitem returned {got!r:.80}, the last item was ({k0!r}, {v0!r:.60})'
+            return None
+        o = Op(f'{"rawmeta" if raw else "meta"}:{op}', desc, m, path, lambda: list(getattr(m, raw_attr)), apply, attr=a, expect=expect,
+               inplace_ids=inplace, list_check=lc)
         o.list_attr = raw_attr
         return o
 
